@@ -11,6 +11,7 @@ mod input;
 mod keys;
 mod model;
 mod ondisk;
+mod open;
 mod ops;
 mod plant;
 mod real;
@@ -94,6 +95,10 @@ fn main() {
             util::cleanup_scratch();
             if vs.is_empty() { 0 } else { 1 }
         }
+        "open-child" => {
+            open::owner_child(&argv[2..]);
+            0
+        }
         "input-child" => {
             input::child_main(&argv[2..]);
             util::cleanup_scratch();
@@ -110,6 +115,7 @@ fn main() {
                 "waldmg" => waldmg::run(&a.tier, a.slice, a.seed),
                 "plant" => plant::run(&a.tier, a.slice, a.seed),
                 "sched" => conc::run(&a.tier, a.slice, a.seed),
+                "open" => open::run(&a.tier, a.slice, a.seed, &prop),
                 _ => {
                     eprintln!("unknown engine {engine}");
                     std::process::exit(2);
@@ -133,6 +139,7 @@ pub fn replay(case: &Value) -> Vec<report::Violation> {
         "waldmg" => waldmg::replay(case),
         "plant" => plant::replay(case),
         "sched" => conc::replay(case),
+        "open" => open::replay(case),
         e => {
             eprintln!("cannot replay engine {e:?}");
             std::process::exit(2);
